@@ -292,20 +292,22 @@ Definition hstep (c : cfg) (g : gstate) (h : hop) : gstate * Z :=
     else ({| g_no := g_no g; g_d := donate (g_d g) from amt; g_m := g_m g |}, amt)
   end.
 
-Fixpoint hrun (c : cfg) (g : gstate) (hs : list hop) : gstate * Z :=
+(** every step carries the hardfork version of its block: histories may cross fork heights *)
+Fixpoint hrun (c : cfg) (g : gstate) (hs : list (Z * hop)) : gstate * Z :=
   match hs with
   | [] => (g, 0)
-  | h :: r => let '(g1, x) := hstep c g h in let '(g2, y) := hrun c g1 r in (g2, x + y)
+  | vh :: r => let '(g1, x) := hstep (set_ver (fst vh) c) g (snd vh) in let '(g2, y) := hrun c g1 r in (g2, x + y)
   end.
 
-Theorem GovInv_all_histories c : forall hs g donated g' received,
-  GovInv donated (g_d g) -> Forall hop_wf hs -> hrun c g hs = (g', received) ->
+Theorem GovInv_all_histories c0 : forall hs g donated g' received,
+  GovInv donated (g_d g) -> Forall (fun vh => hop_wf (snd vh)) hs -> hrun c0 g hs = (g', received) ->
   GovInv (donated + received) (g_d g').
 Proof.
-  induction hs as [|h hs IH]; intros g donated g' received GI WF; simpl.
+  induction hs as [|[v h] hs IH]; intros g donated g' received GI WF; cbn [hrun fst snd].
   - intros [= <- <-]. now rewrite Z.add_0_r.
-  - inversion WF as [|? ? Wh WF']; subst.
-    destruct (hstep c g h) as [g1 x] eqn:Hs. destruct (hrun c g1 hs) as [g2 y] eqn:Hr.
+  - inversion WF as [|? ? Wh WF']; subst. cbn [snd] in Wh.
+    set (c := set_ver v c0).
+    destruct (hstep c g h) as [g1 x] eqn:Hs. destruct (hrun c0 g1 hs) as [g2 y] eqn:Hr.
     intros [= <- <-].
     assert (G1 : GovInv (donated + x) (g_d g1)).
     { destruct h as [t|t|n| |from amt]; simpl in Hs, Wh.
@@ -392,8 +394,8 @@ Definition ex_mem : memory := {| m_pcur := []; m_pnext := []; m_vpr := vpr_empty
 
 (** the hypotheses of the preservation theorems are satisfiable by a non-trivial history *)
 Example history_example :
-  let hs := [HTx (TStake 0%N 20000); HBlock 2; HTx (TVoteBP 0%N [[1;2;3]%N; [4;5;6]%N]); HTransfer 0%N 7;
-             HBlock 100000; HTx (TUnstake 0%N 5000); HTx (TVoteDAO 0%N (Some 1%N) [[49;51]%N])] in
+  let hs := [(1, HTx (TStake 0%N 20000)); (1, HBlock 2); (1, HTx (TVoteBP 0%N [[1;2;3]%N; [4;5;6]%N])); (1, HTransfer 0%N 7);
+             (2, HBlock 100000); (2, HTx (TUnstake 0%N 5000)); (3, HTx (TVoteDAO 0%N (Some 1%N) [[49;51]%N]))] in
   let '(g, r) := hrun ex_cfg {| g_no := 1; g_d := ex_state; g_m := ex_mem |} hs in
   (r, d_total (g_d g), d_sysbal (g_d g), bal_of (g_d g) 0%N, get_result (g_d g) 0%N)
   = (7, 15000, 15007, 34993, [([1;2;3]%N, 15000); ([4;5;6]%N, 15000)]).
